@@ -147,6 +147,7 @@ func checkC16(w *World, r *Report) {
 	checkC16Escapes(w, r, hot)
 	checkC16Constructs(w, r, hot)
 	checkC16Provisioning(w, r)
+	checkContextOwnerAs(w, r, newProto(w), "C16.4")
 }
 
 // funcLineRanges maps source lines to the hot region.
